@@ -85,13 +85,15 @@ def blocked_send_hwm(how, tr, linger=0):
               {"closed": ["tx"], "how": how})
 
 
-def handshake_out(how, off_ms):
-    """an outbound connection whose peer accepts but never speaks"""
-    return mk("handshake-out-%s-%d" % (how, off_ms), [{"name": "tx", "type": "DEALER", "opts": []}],
+def handshake_out(how, off_ms, linger=0):
+    """an outbound connection whose peer accepts but never speaks (with a finite LINGER the handshake may go on
+    for that long, not longer)"""
+    return mk("handshake-out-%s-%d%s" % (how, off_ms, "-l%d" % linger if linger else ""),
+              [{"name": "tx", "type": "DEALER", "opts": [S.i32(S.LINGER, linger), S.i32(S.HANDSHAKE_IVL, 8000)] if linger else []}],
               [{"name": "l", "ops": [{"op": "raw_listen", "raw": "L", "save": "lep"}, {"op": "barrier", "name": "go", "parties": 2},
                                     {"op": "raw_accept", "listener": "L", "raw": "c", "timeout_ms": 3000}, {"op": "sleep", "ms": 2500}]},
                {"name": "b", "ops": [{"op": "barrier", "name": "go", "parties": 2}, {"op": "connect", "sock": "tx", "ep": "$lep"}, {"op": "sleep", "ms": off_ms},
-                                    shutdown_op(how, "tx"), {"op": "sleep", "ms": 300}] + after_ops("tx") + [{"op": "live_actors", "ctx": 0}, {"op": "sleep", "ms": 1200}, {"op": "live_actors", "ctx": 0}]}],
+                                    shutdown_op(how, "tx"), {"op": "sleep", "ms": 300 + linger}] + after_ops("tx") + [{"op": "live_actors", "ctx": 0}, {"op": "sleep", "ms": 1200}, {"op": "live_actors", "ctx": 0}]}],
               {"closed": ["tx"], "how": how, "expect_no_actors": True})
 
 
@@ -225,6 +227,8 @@ def build(thorough, rng):
         scs.append(blocked_send_hwm(how, "tcp", linger=500))
         for off in ([0, 1, 5, 50, 500] if thorough else [1, 200]):
             scs.append(handshake_out(how, off))
+        for off in ([5, 200] if thorough else [200]):
+            scs.append(handshake_out(how, off, linger=300))
         for off in ([-30, -10, -3, -1, 0, 1, 2, 5] if thorough else [-10, -1, 0, 1]):
             scs.append(handshake_in(how, off))
         for off in ([0, 5, 25, 60, 200] if thorough else [5, 60]):
